@@ -292,6 +292,11 @@ func evalCase(s, d *progen.T, ctx string) (fs []ev.Finding, outcome string) {
 	report := func(kind, what string) {
 		fs = append(fs, ev.Finding{Sig: "C07:" + kind + ":" + ctx + ":" + kindOf(d) + "<-" + kindOf(s), What: p.Desc + ": " + what, Case: c})
 	}
+	// the verdict does not depend on the order in which the calls of a
+	// pipeline are written (the compiler sorts them by dependency first)
+	if msg := orderInvariance(p, err == nil); msg != "" {
+		report("verdict-depends-on-call-order", msg)
+	}
 	if err != nil {
 		if r == 1 {
 			report("convertible-rejected", "the binding is one of the documented conversions but the compiler rejects it: "+ev.Short(firstLine(err.Error()), 240))
@@ -375,6 +380,193 @@ func evalCase(s, d *progen.T, ctx string) (fs []ev.Finding, outcome string) {
 		}
 	}
 	return fs, "accepted"
+}
+
+// permutations of 0..n-1 (n <= 5)
+func perms(n int) [][]int {
+	var out [][]int
+	var rec func(cur []int, used int)
+	rec = func(cur []int, used int) {
+		if len(cur) == n {
+			out = append(out, append([]int{}, cur...))
+			return
+		}
+		for i := 0; i < n; i++ {
+			if used&(1<<i) == 0 {
+				rec(append(cur, i), used|1<<i)
+			}
+		}
+	}
+	rec(nil, 0)
+	return out
+}
+
+// orderInvariance compiles the program with the calls of each pipeline
+// written in every other order (pipelines of 2 to 5 calls) and reports the
+// first order whose verdict - accepted, including the construction of the
+// call graph, or rejected - differs from the verdict for the order as built.
+func orderInvariance(p *progen.Program, accepted bool) string {
+	for _, pl := range p.Pipelines {
+		n := len(pl.Calls)
+		if n < 2 || n > 5 {
+			continue
+		}
+		orig := pl.Calls
+		for _, pm := range perms(n)[1:] {
+			calls := make([]*progen.Call, n)
+			for i, j := range pm {
+				calls[i] = orig[j]
+			}
+			pl.Calls = calls
+			src := p.MRO()
+			pl.Calls = orig
+			_, _, ast, err := syntax.ParseSourceBytes([]byte(src), "prog.mro", nil, false)
+			ok := err == nil
+			detail := ""
+			if err != nil {
+				detail = ev.Short(firstLine(err.Error()), 200)
+			}
+			if ok && accepted && ast != nil && ast.Call != nil {
+				if _, gerr := ast.MakeCallGraph("ID.ps.", ast.Call); gerr != nil {
+					ok = false
+					detail = "call graph: " + ev.Short(firstLine(gerr.Error()), 200)
+				}
+			}
+			if ok != accepted {
+				var names []string
+				for _, c := range calls {
+					names = append(names, c.Id())
+				}
+				verdict := map[bool]string{true: "accepted", false: "rejected"}
+				return fmt.Sprintf("pipeline %s with its calls written in the order %v is %s (%s), in dependency order it is %s",
+					pl.Name, names, verdict[ok], detail, verdict[accepted])
+			}
+		}
+	}
+	return ""
+}
+
+// ---------------------------------------------------------------------------
+// Call order x the type of a reference to a mapped call.  The type of M.y
+// depends on how M is mapped, which the compiler only knows once M itself has
+// been checked; calls may be written in any order.
+
+type orderCase struct {
+	MapKind string // "array" | "map"
+	D       string // declared type of the consumer's parameter
+	Perm    []int
+	Chain   int // > 0: a chain of that many calls instead
+}
+
+func buildOrder(oc orderCase) (*progen.Program, bool) {
+	I := progen.IntT
+	p := &progen.Program{}
+	one := &progen.Stage{Name: "ONE", Fn: "ADD", Ins: []progen.Param{{T: I, Name: "x"}}, Outs: []progen.Param{{T: I, Name: "y"}}}
+	p.Stages = append(p.Stages, one)
+	if oc.Chain > 0 {
+		top := &progen.Pipeline{Name: "TOP", Ins: []progen.Param{{T: I, Name: "v"}}, Outs: []progen.Param{{T: I, Name: "r"}}}
+		var calls []*progen.Call
+		for i := 0; i < oc.Chain; i++ {
+			c := &progen.Call{Callee: "ONE", Alias: fmt.Sprintf("STEP%d", i), Binds: []progen.Bind{{Name: "x", E: progen.Self("v")}}}
+			if i > 0 {
+				c.Binds[0].E = progen.Ref(fmt.Sprintf("STEP%d", i-1), "y")
+			}
+			calls = append(calls, c)
+		}
+		for _, j := range oc.Perm {
+			top.Calls = append(top.Calls, calls[j])
+		}
+		top.Ret = []progen.Bind{{Name: "r", E: progen.Ref(fmt.Sprintf("STEP%d", oc.Chain-1), "y")}}
+		p.Pipelines = []*progen.Pipeline{top}
+		p.Top = &progen.Call{Callee: "TOP", Binds: []progen.Bind{{Name: "v", E: progen.Lit(progen.Int(1))}}}
+		return p, true
+	}
+	var srcT, yT *progen.T
+	var srcLit *progen.Val
+	if oc.MapKind == "array" {
+		srcT, yT = progen.ArrayOf(I), progen.ArrayOf(I)
+		srcLit = progen.Arr(progen.Int(1), progen.Int(2))
+	} else {
+		srcT, yT = progen.TMapOf(I), progen.TMapOf(I)
+		srcLit = progen.Obj(map[string]*progen.Val{"a": progen.Int(1), "b": progen.Int(2)})
+	}
+	var dT *progen.T
+	switch oc.D {
+	case "int":
+		dT = I
+	case "int[]":
+		dT = progen.ArrayOf(I)
+	case "int[][]":
+		dT = progen.ArrayOf(progen.ArrayOf(I))
+	case "map<int>":
+		dT = progen.TMapOf(I)
+	}
+	cons := &progen.Stage{Name: "CONS", Fn: "LEN", Ins: []progen.Param{{T: dT, Name: "x"}}, Outs: []progen.Param{{T: I, Name: "y"}}}
+	p.Stages = append(p.Stages, cons)
+	top := &progen.Pipeline{Name: "TOP", Ins: []progen.Param{{T: srcT, Name: "values"}},
+		Outs: []progen.Param{{T: I, Name: "first"}, {T: I, Name: "second"}}}
+	calls := []*progen.Call{
+		{Callee: "ONE", Alias: "FIRST", Binds: []progen.Bind{{Name: "x", E: progen.Ref("SEED", "y")}}},
+		{Callee: "CONS", Alias: "SECOND", Binds: []progen.Bind{{Name: "x", E: progen.Ref("EACH", "y")}}},
+		{Callee: "ONE", Alias: "SEED", Binds: []progen.Bind{{Name: "x", E: progen.Lit(progen.Int(1))}}},
+		{Callee: "ONE", Alias: "EACH", Map: true, Binds: []progen.Bind{{Name: "x", E: progen.SplitE(progen.Self("values"))}}},
+	}
+	for _, j := range oc.Perm {
+		top.Calls = append(top.Calls, calls[j])
+	}
+	top.Ret = []progen.Bind{{Name: "first", E: progen.Ref("FIRST", "y")}, {Name: "second", E: progen.Ref("SECOND", "y")}}
+	p.Pipelines = []*progen.Pipeline{top}
+	p.Top = &progen.Call{Callee: "TOP", Binds: []progen.Bind{{Name: "values", E: progen.Lit(srcLit)}}}
+	return p, dT.String() == yT.String()
+}
+
+func evalOrder(oc orderCase) (fs []ev.Finding, outcome string) {
+	p, wellTyped := buildOrder(oc)
+	src := p.MRO()
+	_, _, ast, err := syntax.ParseSourceBytes([]byte(src), "prog.mro", nil, false)
+	c := Case{S: fmt.Sprintf("%s %v chain=%d", oc.MapKind, oc.Perm, oc.Chain), D: oc.D, Context: "call-order"}
+	var names []string
+	for _, cl := range p.Pipelines[0].Calls {
+		names = append(names, cl.Id())
+	}
+	report := func(kind, what string) {
+		fs = append(fs, ev.Finding{Sig: "C07:" + kind + ":call-order", What: fmt.Sprintf("calls written in the order %v, reference to a call mapped over a%s bound to %s: %s", names,
+			map[string]string{"array": "n array", "map": " typed map", "": " value"}[oc.MapKind], oc.D, what), Case: c})
+	}
+	if err != nil {
+		if wellTyped {
+			report("convertible-rejected", "the program is well typed but the compiler rejects it: "+ev.Short(firstLine(err.Error()), 240))
+		} else if !strings.Contains(err.Error(), "EACH.y") && !strings.Contains(err.Error(), "SECOND") {
+			report("error-not-located", "the rejection does not name the offending binding: "+ev.Short(err.Error(), 300))
+		}
+		return fs, "rejected"
+	}
+	if !wellTyped {
+		report("illtyped-accepted", "a binding that is not convertible is accepted by the compiler")
+		return fs, "accepted"
+	}
+	if ast != nil && ast.Call != nil {
+		if _, gerr := ast.MakeCallGraph("ID.ps.", ast.Call); gerr != nil {
+			report("accepted-but-callgraph-fails", "compiles, but building the call graph fails: "+ev.Short(firstLine(gerr.Error()), 240))
+		}
+	}
+	return fs, "accepted"
+}
+
+func orderCases() []orderCase {
+	var out []orderCase
+	for _, pm := range perms(4) {
+		for _, d := range []string{"int", "int[]", "int[][]", "map<int>"} {
+			out = append(out, orderCase{MapKind: "array", D: d, Perm: pm})
+			out = append(out, orderCase{MapKind: "map", D: d, Perm: pm})
+		}
+	}
+	for _, n := range []int{3, 4, 5} {
+		for _, pm := range perms(n) {
+			out = append(out, orderCase{Chain: n, D: "int", Perm: pm})
+		}
+	}
+	return out
 }
 
 func hasStruct(t *progen.T) bool {
@@ -529,6 +721,22 @@ func main() {
 		}
 		r.Eval("replay")
 		r.Sample(c)
+		if c.Context == "call-order" {
+			var oc orderCase
+			var mk string
+			fmt.Sscanf(c.S, "%s", &mk)
+			for _, cand := range orderCases() {
+				if fmt.Sprintf("%s %v chain=%d", cand.MapKind, cand.Perm, cand.Chain) == c.S && cand.D == c.D {
+					oc = cand
+				}
+			}
+			fs, out := evalOrder(oc)
+			fmt.Println("outcome:", out)
+			for _, f := range fs {
+				r.Report(f)
+			}
+			r.Finish()
+		}
 		if c.Context == "split-consistency" {
 			fs, out := evalSplit(strings.Split(c.S, ","))
 			fmt.Println("outcome:", out)
@@ -550,7 +758,8 @@ func main() {
 	if !ev.IsWorker() {
 		r.Rule = fmt.Sprintf("all ordered pairs (S, D) of a %d-type universe (11 base types incl. two user file types, a struct and a narrower struct; arrays to depth 2, typed maps, typed maps of arrays, arrays of typed maps) in each of %d binding contexts %v; "+
 			"a reference relation written from the statement decides convertible / not convertible / undecided; accepted programs run on the real runtime at --strict=error with three conforming output valuations (typical, empty collections, null leaves) and every value delivered to the consumer is checked by the reference validator; "+
-			"rejections must carry a position inside the offending statement. quick visits the pairs of the depth<=1 types and all pairs of the int-based types up to depth 3 in all contexts; distinct = distinct (S, D, context); non-trivial = S differs from D", len(U), len(contexts), contexts)
+			"rejections must carry a position inside the offending statement; the verdict must not change when the calls of a pipeline are written in any other order (every permutation, pipelines of 2-5 calls), "+
+			"and a dedicated family crosses the written order with the typing of a reference to a mapped call: two producers (one mapped over an array / a typed map) and two consumers in all 24 orders x 4 declared consumer types, and chains of 3-5 calls in every order; quick visits the pairs of the depth<=1 types and all pairs of the int-based types up to depth 3 in all contexts; distinct = distinct (S, D, context); non-trivial = S differs from D", len(U), len(contexts), contexts)
 		r.RunWorkers(0)
 		r.Assume("undecided pairs (file<->path, filetype<->other filetype, map->struct, map->map<T>) are checked for run-time soundness only")
 		r.Finish()
@@ -597,6 +806,22 @@ func main() {
 					r.Sample(Case{S: s.String(), D: d.String(), Context: ctx})
 				}
 			}
+		}
+	}
+	// call order x mapped-call typing
+	for _, oc := range orderCases() {
+		idx++
+		if !r.Mine(idx) {
+			continue
+		}
+		fs, out := evalOrder(oc)
+		r.Eval(fmt.Sprintf("order|%s|%s|%v|%d", oc.MapKind, oc.D, oc.Perm, oc.Chain))
+		if len(fs) == 0 {
+			r.Outcome("call-order:" + out)
+		}
+		for _, f := range fs {
+			r.Outcome("violation:" + strings.Split(f.Sig, ":")[1])
+			r.Report(f)
 		}
 	}
 	// split consistency: all sequences of 2 and 3 sources
